@@ -218,6 +218,39 @@ m("c05_getter_and_then", "C05", r"C05\.BIND:getter-is-plain-lookup", "the API ge
   "tera/src/tera.rs", "                |key| context.get(key).cloned(),", "                |key| context.get(key).filter(|v| !v.is_none()).cloned(),")
 m("c04_lineage_walk_extra_condition", "C04", r"C04\.LINEAGE:finalize:walk-iff-own-calls-super", "the ancestor walk is skipped for templates with a single parent",
   "tera/src/tera.rs", '                if chunk.is_calling_function("super") {\n                    for parent_tpl_name', '                if tpl_parents[name].len() != 1 && chunk.is_calling_function("super") {\n                    for parent_tpl_name')
+m("c03_iter_size_hint_inexact", "C03", r"C03\.ITER:size_hint:exact", "the indexed size hint gives a loose upper bound",
+  "tera/src/vm/for_loop.rs", "        let remaining = len - index;\n        (remaining, Some(remaining))", "        let remaining = len - index;\n        (remaining, Some(len))")
+_st = open(os.path.join(REPO, "tera/src/vm/state.rs")).read()
+_a = _st.index("    pub(crate) current_block_name: Option<&'tera str>,")
+_b = _st.index("            current_block_name: None,") + len("            current_block_name: None,")
+_old = _st[_a:_b]
+_new = _old.replace("    pub(crate) current_block_name: Option<&'tera str>,", "    pub(crate) current_block_name: Option<&'tera str>,\n    pub(crate) last_rendered: Option<Value>,", 1) \
+    .replace("            current_block_name: None,", "            current_block_name: None,\n            last_rendered: None,", 1)
+m("c03_state_new_field", "C03", r"C03\.STATE:fields-reviewed", "State gets an extra field (a place for a memo)", "tera/src/vm/state.rs", _old, _new)
+m("c09_fused_writepath_missing", "C09", r"C09\.FUSED:WritePath:missing-attribute-is-an-error", "WritePath prints nothing for a missing last attribute",
+  "tera/src/vm/interpreter.rs", """                                None => {
+                                    let span = chunk
+                                        .get_span_at(current_ip, k + 1)
+                                        .expect("to have a span for error");
+                                    return Err(self.undefined_field_error(cur, attr, span, chunk));
+                                }
+                            }
+                        }
+                        cur""", """                                None => {
+                                    if k + 1 == num_attrs {
+                                        ip += 1;
+                                        continue;
+                                    }
+                                    let span = chunk
+                                        .get_span_at(current_ip, k + 1)
+                                        .expect("to have a span for error");
+                                    return Err(self.undefined_field_error(cur, attr, span, chunk));
+                                }
+                            }
+                        }
+                        cur""")
+m("c04_vm_super_skips_render", "C04", r"C04\.VM:super:always-renders", "super() answers an empty string when the ancestor's chunk has no instructions",
+  "tera/src/vm/interpreter.rs", "                        let block_chunk = &lineage[level + 1];\n                        let old_chunk = state.chunk.replace(block_chunk);", "                        let block_chunk = &lineage[level + 1];\n                        if block_chunk.len() == 0 {\n                            state.stack.push(Value::safe_string(\"\"), current_ip..=current_ip);\n                            ip += 1;\n                            continue;\n                        }\n                        let old_chunk = state.chunk.replace(block_chunk);")
 # ---------------------------------------------------------------- C05
 m("c05_iso_global", "C05", r"C05\.ISO:writer:global_context", "render_component gives the component the global context",
   "tera/src/vm/interpreter.rs", """        let mut state = State::new_with_chunk(&context, chunk);
